@@ -1,6 +1,6 @@
 From Coq Require Import ZArith List Bool Reals Lra.
 From Flocq Require Import Core BinarySingleNaN.
-Require Import GV.FloatBase GV.FloatLemmas GV.AngleM GV.AngleProofs GV.GeonumM GV.GeonumProofs GV.TraitsM GV.NewProofs GV.CtorProofs GV.PiBounds GV.TrigProofs.
+Require Import GV.FloatBase GV.FloatLemmas GV.AngleM GV.AngleProofs GV.GeonumM GV.GeonumProofs GV.TraitsM GV.NewProofs GV.CtorProofs GV.PiBounds GV.TrigProofs GV.DotValue GV.DistValue GV.DirProofs GV.SymProofs.
 Open Scope R_scope.
 Require Import GV.Properties.C15.
 Check C15_cos_encoding : forall (L : libm) a, fin (cosF L (grade_angle a)) ->
@@ -28,3 +28,7 @@ Check C15_sin_value : forall (L : libm) (u : R) a, sin_acc L u -> canonp (rem a)
 Print Assumptions C15_sin_value.
 Check C15_acc_inhabited : cos_acc ideal_libm (/ 4503599627370496) /\ sin_acc ideal_libm (/ 4503599627370496).
 Print Assumptions C15_acc_inhabited.
+Check C15_pythagoras : forall (L : libm) (u : R) a, cos_acc L u -> sin_acc L u -> u <= / 1000 -> canonp (rem a) ->
+  let c := cosF L (grade_angle a) in let s := sinF L (grade_angle a) in
+  Rabs (R_ c * R_ c + R_ s * R_ s - 1) <= 5 * (u + 25 / 10000000000000000).
+Print Assumptions C15_pythagoras.
